@@ -27,6 +27,58 @@ Theorem C10_slot_emptied_only_by_panic :
 Proof. exact (@slot_taken_only_by_panic). Qed.
 Print Assumptions C10_slot_emptied_only_by_panic.
 
+(* ---------------------------------------------------------------------------------------
+   Whole histories.  Indexer calls ([RWrite]: any function [wr] of the store) and read
+   requests of every kind (one execution, a multi-call with state carry-over, a gas
+   estimation of any number of runs) go through the same slot.  For EVERY such history: the
+   store it leaves, and the answers it gives to the indexer calls, are those of the history
+   with all read requests removed. *)
+Theorem C10_reads_erasable_from_any_history :
+  forall (S J Out WOut : Type) (ej : J) (exec : S -> J -> N -> res (Out * J))
+         (wr : S -> N -> S * WOut) (rs : list req) (s : S),
+    no_panic exec ->
+    fst (history ej exec wr (Present s) rs)
+    = fst (history ej exec wr (Present s) (filter is_write rs)) /\
+    filter is_write_ans (snd (history ej exec wr (Present s) rs))
+    = snd (history ej exec wr (Present s) (filter is_write rs)).
+Proof. exact (fun S J Out WOut ej exec wr rs s => @reads_erasable S J Out ej exec WOut wr rs s). Qed.
+Print Assumptions C10_reads_erasable_from_any_history.
+
+(* The answer to a read request does not depend on which other read requests were served
+   before it, only on the indexer calls. *)
+Theorem C10_read_answer_independent_of_other_reads :
+  forall (S J Out WOut : Type) (ej : J) (exec : S -> J -> N -> res (Out * J))
+         (wr : S -> N -> S * WOut) (rs : list req) (r : req) (s : S),
+    no_panic exec ->
+    snd (serve ej exec wr (fst (history ej exec wr (Present s) rs)) r)
+    = snd (serve ej exec wr (fst (history ej exec wr (Present s) (filter is_write rs))) r).
+Proof.
+  exact (fun S J Out WOut ej exec wr rs r s =>
+           @read_answer_independent_of_other_reads S J Out ej exec WOut wr rs r s).
+Qed.
+Print Assumptions C10_read_answer_independent_of_other_reads.
+
+(* No request of any history finds the slot empty (no later call panics on the mutex
+   expectation). *)
+Theorem C10_history_never_wedges :
+  forall (S J Out WOut : Type) (ej : J) (exec : S -> J -> N -> res (Out * J))
+         (wr : S -> N -> S * WOut) (rs : list req) (s : S),
+    no_panic exec -> exists s', fst (history ej exec wr (Present s) rs) = Present s'.
+Proof. exact (fun S J Out WOut ej exec wr rs s => @history_slot_present S J Out ej exec WOut wr rs s). Qed.
+Print Assumptions C10_history_never_wedges.
+
+(* Non-vacuity of the history theorems: writes add to the store, reads try to (their journal
+   is dropped); the interleaved and the read-free history end in the same store with the same
+   write answers. *)
+Example C10_nonvacuous_history :
+  let exec := fun (s : N) (j : N) (i : N) => if i =? 2 then Err else Ok (s + j + i, j + 1) in
+  let wr := fun (s : N) (w : N) => (s + w, s) in
+  let rs := [RRead 1; RWrite 5; RReadMulti [1; 2; 3]; REstimate [7; 8; 9]; RWrite 6; RRead 3] in
+  history 0 exec wr (Present 40) rs
+  = (Present 51, [ARead (Ok 41); AWrite (Ok 40); AMulti Err; AEstimate; AWrite (Ok 45); ARead (Ok 54)]) /\
+  history 0 exec wr (Present 40) (filter is_write rs) = (Present 51, [AWrite (Ok 40); AWrite (Ok 45)]).
+Proof. vm_compute. split; reflexivity. Qed.
+
 (* Non-vacuity: an oracle whose second call fails; the batch returns the error, the store is
    back. *)
 Example C10_nonvacuous :
